@@ -494,7 +494,7 @@ static Case gen_c11() {
 }
 
 // ============================================================================================ C12
-enum { E_NONE = 0, E_IDX, E_BEID, E_BEVER, E_LIBVER, E_TWIN, E_PAYLOAD, E_STALE, E_FLAG };
+enum { E_NONE = 0, E_IDX, E_BEID, E_BEVER, E_LIBVER, E_TWIN, E_PAYLOAD, E_STALE, E_FLAG, E_MAGIC };
 static Result run_c12(const Case &c) {
     Result r;
     Config gi = cfg_from(c, "i_"), gj = cfg_from(c);
@@ -539,6 +539,7 @@ static Result run_c12(const Case &c) {
     case E_TWIN: make_twin(f.data()); break;
     case E_PAYLOAD: if (paylen) f[80 + (a % (paylen * 8)) / 8] ^= (uint8_t)(1u << (a % 8)); break;
     case E_STALE: f[(a >> 8) % 59] ^= (uint8_t)(1 + a % 255); break;
+    case E_MAGIC: { const uint32_t vals[] = {0, bswap32(ref::MAGIC), ref::MAGIC ^ 1u, (uint32_t)a}; put32(&f[ref::O_MAGIC], vals[(a >> 8) % 4]); break; }    // outside the metadata checksum: nothing to re-seal
     case E_FLAG: if (f[ref::O_CT] == 2) { f[ref::O_MISM] = 1; ref::reseal(f.data()); resealed_edit = true; } break;   // recomputed by the query when CRC32
     }
     bool want_invalid = ref::fragment_invalid(gi, running, f.data());
@@ -563,6 +564,26 @@ static Result run_c12(const Case &c) {
             bool bad = idx >= (uint32_t)ni || x[ref::O_BEID] != (uint8_t)gi.backend ||
                        !ref::accepts_hook()(gi.backend, get32(&x[ref::O_BEVER])) || x[ref::O_MISM] == 1;
             if (bad) want_bad = true;
+        }
+        // what is supplied: whole fragments, or the metadata alone ("used to verify stripes in verify_stripe_metadata()",
+        // 59 bytes per entry in exact-size buffers) - 1: the stored metadata, 2: what the metadata query returns for it
+        int md_form = (int)c.get("md_form", 0);
+        if (md_form) {
+            for (auto &x : set) {
+                std::vector<uint8_t> blob(x.begin(), x.begin() + ref::META_LEN);
+                if (md_form == 2) {
+                    InBuf whole(x, false);
+                    fragment_metadata_t md; memset(&md, 0, sizeof md);
+                    if (liberasurecode_get_fragment_metadata(whole.p, &md) == 0) memcpy(blob.data(), &md, ref::META_LEN);
+                }
+                x = blob;
+            }
+            want_bad = false;
+            for (auto &x : set) {
+                uint32_t idx = get32(&x[ref::O_IDX]);
+                if (idx >= (uint32_t)ni || x[ref::O_BEID] != (uint8_t)gi.backend || !ref::accepts_hook()(gi.backend, get32(&x[ref::O_BEVER])) || x[ref::O_MISM] == 1) want_bad = true;
+            }
+            r.cls("stripe_verification_on_metadata_blobs");
         }
         std::vector<const std::vector<uint8_t> *> frs;
         for (auto &x : set) frs.push_back(&x);
@@ -592,7 +613,8 @@ static Case gen_c12() {
         else if (gj.backend != ref::B_XOR) { gi.k = (int)pick(1, 16); gi.m = (int)pick(1, 16); gi.hd = gi.m; }   // same back end, other shape
     }
     cfg_to(c, gi, "i_");
-    c.set("edit", weighted({1, 5, 3, 3, 3, 1, 2, 2, 1}));
+    c.set("edit", weighted({1, 5, 3, 3, 3, 1, 2, 2, 1, 2}));
+    c.set("md_form", weighted({3, 1, 1}));
     c.set("earg", pick(0, 1ll << 31));
     c.set("wenv", weighted({6, 1, 1, 3, 1}));
     c.set("ro", coin() ? 1 : 0);       // inputs on read-only pages (a query may not write into a fragment, not even temporarily)
